@@ -21,6 +21,10 @@ below are the meaning given to the Python operations the translator recognises:
   `[[] for _ in l]`             `l.map (fun _ => [])`
   `L[i].append(e)` (local list of lists)    `bucketAppend L i e`  (`none` = IndexError)
   `for e in self._elts: body`   a fold over `s.elts` carrying (state, the mutated local container), `none` once raised
+  `D = {}` (local)              `([] : DictS)`        insertion-ordered dict of sets
+  `D.setdefault(k, set()).add(e)`           `dsAdd D k e`
+  `for c in D.values(): C.update({x: c for x in c})`   fold of `dsUpdate C (c.map (x ↦ (x, c)))` over `dsValues D`
+  `self._elts[i] = x`           `{ s with elts := s.elts.set i x }`
   `self._siz[a] < self._siz[b]` in `union`  `sizCmp (sizAt …) (sizAt …)`, `sizCmp` extracted with the operator the source uses
   `raise …`                     `none`                (the exception class is recorded in a descriptor table)
   `while c: body`               recursion on a fuel argument, called with fuel `s.par.length`
@@ -61,6 +65,29 @@ def bucketAppend : List (List Nat) → Nat → Nat → Option (List (List Nat))
   | [], _, _ => none
   | b :: bs, 0, e => some ((b ++ [e]) :: bs)
   | b :: bs, i + 1, e => (bucketAppend bs i e).map (fun r => b :: r)
+
+/-- a LOCAL Python dict `Nat -> set` (or `Nat -> shared set object`): association list in INSERTION order (what `.values()`
+iterates), each value a duplicate-free list in insertion order (iteration order of a Python set is not modelled) -/
+abbrev DictS := List (Nat × List Nat)
+
+/-- `s.add(e)` on a set -/
+def setAdd (l : List Nat) (e : Nat) : List Nat := if l.contains e then l else l ++ [e]
+
+/-- `d.setdefault(k, set()).add(e)` -/
+def dsAdd : DictS → Nat → Nat → DictS
+  | [], k, e => [(k, [e])]
+  | (k', v) :: d, k, e => if k' = k then (k', setAdd v e) :: d else (k', v) :: dsAdd d k e
+
+/-- `d.values()` -/
+def dsValues (d : DictS) : List (List Nat) := d.map Prod.snd
+
+/-- `d[k] = v` (an existing key keeps its position) -/
+def dsSet : DictS → Nat → List Nat → DictS
+  | [], k, v => [(k, v)]
+  | (k', v') :: d, k, v => if k' = k then (k', v) :: d else (k', v') :: dsSet d k v
+
+/-- `d.update(pairs)` -/
+def dsUpdate (d : DictS) (ps : List (Nat × List Nat)) : DictS := ps.foldl (fun d p => dsSet d p.1 p.2) d
 
 /-- the attributes of a `UnionFind` instance, as `__init__` creates them -/
 structure St where
